@@ -40,25 +40,65 @@ def block_after(src, anchor_rx, which=0):
         j += 1
 
 
+def stmt_from(src, anchor_rx, which=0):
+    """the statement that starts at the match of anchor_rx and ends with the brace-matched block that follows it"""
+    ms = list(re.finditer(anchor_rx, src))
+    if len(ms) <= which:
+        raise core.Inconclusive("slice anchor %r not found" % anchor_rx)
+    m = ms[which]
+    body = block_after(src[m.start():], r"\{", 0)
+    head = src[m.start():src.index("{", m.start())]
+    return head + "{" + body + "}"
+
+
+def expr_group(src, rx, which=0):
+    ms = list(re.finditer(rx, src, re.S))
+    if len(ms) <= which:
+        raise core.Inconclusive("slice pattern %r not found" % rx)
+    return ms[which].group(1)
+
+
+def function_text(src, name):
+    m = re.search(r"fn %s\b" % name, src)
+    if not m:
+        raise core.Inconclusive("function %s not found" % name)
+    return src[m.start():m.start() + len("fn %s" % name)] + src[m.end():][:0] + src[m.end():src.index("{", m.end())] + "{" + block_after(src[m.start():], r"\{", 0) + "}"
+
+
 SLICES = {
-    # name: (source file, anchor regex, occurrence)
-    "number_any": ("src/parser.rs", r"Rule::NUMBER_ANY\s*=>\s*\{", 0),
+    # name: [(marker, source file, mode, pattern, scope function or None)]
+    "number_any": [("/*SLICE*/", "src/parser.rs", "block", r"Rule::NUMBER_ANY\s*=>\s*\{", None)],
+    "depth_step": [
+        ("/*SLICE:height*/", "src/runtime_scope.rs", "expr", r"height:\s*(.*?),\n", "from_template"),
+        ("/*SLICE:check*/", "src/runtime_scope.rs", "stmt", r"if rt\s*\.limits\s*\.depth_limit", "from_template"),
+    ],
+    "trampoline": [
+        ("/*SLICE*/", "src/runtime_scope.rs", "block", r"XFunction::UserFunction\s*\{\s*template,\s*output\s*\}\s*=>\s*\{", "eval_func_with_values"),
+    ],
 }
 
 
 def generate(real_dir):
-    """writes real/slice_<name>.rs for every slice template and real/slices_mod.rs; returns {name: sha of slice text}"""
+    """writes real/slice_<name>.rs for every slice template and real/slices_mod.rs; returns {name: info}"""
     import hashlib
     info = {}
     mods = []
-    for name, (rel, rx, which) in SLICES.items():
-        src = open(os.path.join(core.REPO, rel)).read()
-        body = block_after(src, rx, which)
+    for name, parts in SLICES.items():
         tpl = open(os.path.join(SLICE_DIR, name + ".rs")).read()
-        if "/*SLICE*/" not in tpl:
-            raise core.Inconclusive("slice template %s has no marker" % name)
-        open(os.path.join(real_dir, "slice_%s.rs" % name), "w").write(tpl.replace("/*SLICE*/", body))
+        h = hashlib.sha256()
+        nlines = 0
+        for marker, rel, mode, rx, scope in parts:
+            src = open(os.path.join(core.REPO, rel)).read()
+            if scope:
+                src = function_text(src, scope)
+            body = block_after(src, rx) if mode == "block" else stmt_from(src, rx) if mode == "stmt" else expr_group(src, rx)
+            if marker not in tpl:
+                raise core.Inconclusive("slice template %s has no marker %s" % (name, marker))
+            tpl = tpl.replace(marker, body)
+            h.update(body.encode())
+            nlines += body.count("\n") + 1
+        open(os.path.join(real_dir, "slice_%s.rs" % name), "w").write(tpl)
         mods.append('#[path = "slice_%s.rs"]\npub mod %s;\n' % (name, name))
-        info[name] = dict(source=rel, anchor=rx, sha256=hashlib.sha256(body.encode()).hexdigest()[:16], lines=body.count("\n") + 1)
+        info[name] = dict(source=sorted({p[1] for p in parts}), sha256=h.hexdigest()[:16], lines=nlines)
     open(os.path.join(real_dir, "slices_mod.rs"), "w").write("".join(mods))
     return info
